@@ -10,7 +10,10 @@
 (* Part = "pipes": one state per pipeline description (2-3 functions        *)
 (*   wiring a pair of annotations directly / through an element-wise map /  *)
 (*   through a reduction / through unchecked edges, with the flag on and    *)
-(*   off); the expected outcome of Pipeline([...]) is printed.              *)
+(*   off; NAMED shapes whose edges are derived from output names, rename   *)
+(*   steps and MapSpecs; SIBLING shapes whose consumer takes two array      *)
+(*   inputs in every writable combination of access modes); the expected    *)
+(*   outcome of Pipeline([...]) is printed.                                 *)
 (*                                                                         *)
 (* The universe is the sequence USeq (a set, ordered by TLC); pairs and    *)
 (* pipelines refer to annotations by their index in USeq, the ANN lines    *)
@@ -153,6 +156,63 @@ NamedDesc(shape, P, C) ==
       [] shape = "direct_other2" -> [prod |-> [outs |-> <<"y">>, anns |-> <<P>>, steps |-> <<>>, hows |-> <<>>, ms |-> NoMS],
                                      cons |-> [params |-> <<Par("y", C), Par("w", NoAnn)>>, ms |-> MS(<<wj>>, <<zj>>)]]
 
+(* SIBLING shapes: the consumer has TWO array inputs and its MapSpec takes each of them in its own way.      *)
+(* An access mode is the index text of one MapSpec entry; "no" = the input has no entry at all.              *)
+(*   family sib3 (3 functions)   fm: x[i], y[j] -> m[i, j]  ;  fw: y[j] -> w[j]  ;  g(m, w)                   *)
+(*        m-modes   ij  m[i, j]  |  sj  m[:, j]  |  is  m[i, :]  |  ss  m[:, :]  |  no                        *)
+(*        w-modes   j   w[j]     |  s   w[:]     |  no                                                        *)
+(*   family sib2 (2 functions)   f: x[i] -> a[i], b[i] returning a tuple  ;  g(a, b)                          *)
+(*        a-, b-modes   i  a[i]  |  s  a[:]  |  no                                                            *)
+(*   family sibr (2 functions)   f: x[i] -> y[i]  ;  g(y, q) where q is an unannotated pipeline input         *)
+(*        y-modes   i | s | no   ;   q-modes   i  q[i] (zipped with y)  |  k  q[k] (an axis of its own)  |  s  q[:] *)
+(* The consumer's output is indexed by the indices its entries use (i, j, k in this order).  A combination    *)
+(* that uses no index at all cannot be written as a MapSpec (`m[:, :], w[:] -> r` is refused by the parser)   *)
+(* and is left out; "no" for both inputs means that the consumer has no MapSpec.                              *)
+(* `on` (1 or 2) is the input whose edge carries the pair (P, C); the sibling edge is a compatible int edge   *)
+(* (int -> int when taken element-wise, int -> Array[int] when reduced), so that the outcome has to be that   *)
+(* of the edge under test ALONE, taken the way ITS OWN entry says (TypeCompat!LawViaLocal / LawEdgewise).     *)
+ModeAxes(mode) == CASE mode = "ij" -> <<"i", "j">> [] mode = "sj" -> <<":", "j">> [] mode = "is" -> <<"i", ":">>
+                    [] mode = "ss" -> <<":", ":">> [] mode = "i"  -> <<"i">>      [] mode = "j"  -> <<"j">>
+                    [] mode = "k"  -> <<"k">>      [] mode = "s"  -> <<":">>
+Entry(name, mode) == IF mode = "no" THEN <<>> ELSE <<Arr(name, ModeAxes(mode))>>
+(* what the mode of an input means for its edge (mapped producer): absent = the whole array, a `:` = a partial *)
+(* reduction, indices only = element-wise                                                                     *)
+ModeVia(mode)  == IF mode = "no" THEN "reduce"
+                  ELSE IF \E l \in DOMAIN ModeAxes(mode) : ModeAxes(mode)[l] = ":" THEN "preduce" ELSE "emap"
+SibFams        == {"sib3", "sib2", "sibr"}
+SibInputs(fam) == CASE fam = "sib3" -> <<"m", "w">> [] fam = "sib2" -> <<"a", "b">> [] fam = "sibr" -> <<"y", "q">>
+SibModes(fam)  == CASE fam = "sib3" -> <<{"ij", "sj", "is", "ss", "no"}, {"j", "s", "no"}>>
+                    [] fam = "sib2" -> <<{"i", "s", "no"}, {"i", "s", "no"}>>
+                    [] fam = "sibr" -> <<{"i", "s", "no"}, {"i", "k", "s"}>>
+SibOns(fam)    == IF fam = "sibr" THEN {1} ELSE {1, 2}          \* q is a pipeline input: no edge to test on it
+SibIns(fam, m1, m2)  == Entry(SibInputs(fam)[1], m1) \o Entry(SibInputs(fam)[2], m2)
+Writable(ins)        == ins = <<>> \/ InputIndices(MS(ins, <<>>)) # {}
+ConsumerMS(ins, o)   == IF ins = <<>> THEN NoMS
+                        ELSE MS(ins, <<Arr(o, SelectSeq(<<"i", "j", "k">>, LAMBDA x : x \in InputIndices(MS(ins, <<>>))))>>)
+SibTable == UNION {UNION {{[name |-> fam \o "_" \o mm[1] \o "_" \o mm[2] \o "_on_" \o SibInputs(fam)[on],
+                            fam |-> fam, m1 |-> mm[1], m2 |-> mm[2], on |-> on] : on \in SibOns(fam)} :
+                          mm \in {x \in SibModes(fam)[1] \X SibModes(fam)[2] : Writable(SibIns(fam, x[1], x[2]))}} :
+                   fam \in SibFams}
+SibShapes    == {r.name : r \in SibTable}
+SibOf(name)  == CHOOSE r \in SibTable : r.name = name
+ASSUME Cardinality(SibTable) = 24 + 12 + 7 /\ Cardinality(SibShapes) = Cardinality(SibTable)
+ASSUME SibShapes \cap (Shapes \cup NamedShapes \cup {"row"}) = {}
+
+PR(outs, anns, ms) == [outs |-> outs, anns |-> anns, steps |-> <<>>, hows |-> <<>>, ms |-> ms]
+SibAnn(mode)       == IF ModeVia(mode) = "emap" THEN IntT ELSE ArrayOf(IntT)
+yj == Arr("y", <<"j">>)
+SibDesc(r, P, C) ==
+    LET ins   == SibIns(r.fam, r.m1, r.m2)
+        pa(k) == IF r.on = k THEN P ELSE IntT
+        ca(k) == IF r.on = k THEN C ELSE SibAnn(IF k = 1 THEN r.m1 ELSE r.m2)
+    IN  CASE r.fam = "sib3" -> [prods |-> <<PR(<<"m">>, <<pa(1)>>, MS(<<xi, yj>>, <<Arr("m", <<"i", "j">>)>>)),
+                                            PR(<<"w">>, <<pa(2)>>, MS(<<yj>>, <<wj>>))>>,
+                                cons  |-> [params |-> <<Par("m", ca(1)), Par("w", ca(2))>>, ms |-> ConsumerMS(ins, "r")]]
+          [] r.fam = "sib2" -> [prods |-> <<PR(<<"a", "b">>, <<pa(1), pa(2)>>, MS(<<xi>>, <<Arr("a", <<"i">>), Arr("b", <<"i">>)>>))>>,
+                                cons  |-> [params |-> <<Par("a", ca(1)), Par("b", ca(2))>>, ms |-> ConsumerMS(ins, "z")]]
+          [] r.fam = "sibr" -> [prods |-> <<PR(<<"y">>, <<P>>, MS(<<xi>>, <<yi>>))>>,
+                                cons  |-> [params |-> <<Par("y", C), Par("q", NoAnn)>>, ms |-> ConsumerMS(ins, "z")]]
+
 (* annotations used on pipeline edges *)
 PQuick == {IntT, BoolT, FloatT, StrT, NoneT, AnyT, NoAnn, TVar, At("list"),
            ListOf(IntT), ListOf(BoolT), ListOf(AnyT), SetOf(IntT), DictOf(StrT, IntT),
@@ -165,8 +225,13 @@ PThorough == PQuick \cup {BytesT, At("tuple"), At("dict"), ListOf(FloatT), ListO
            Tup1(ArrayOf(IntT)), ArrayOf(UnionOf(IntT, StrT))}
 PSet == IF Tier = "quick" THEN PQuick ELSE PThorough
 ASSUME PSet \subseteq Universe
+(* annotations on the edge under test of the sibling shapes *)
+PSibQuick == {IntT, BoolT, FloatT, StrT, AnyT, NoAnn, ListOf(IntT), Opt(IntT), Ann(IntT), ArrayOf(IntT)}
+PSib == IF Tier = "quick" THEN PSibQuick ELSE PQuick
+ASSUME PSib \subseteq PSet
 
-WellFormedPipe(shape, P) == shape \in ({"multi2", "multi2x"} \cup RenameShapes) => P.k # "NoAnn"    \* tuple[NoAnn, int] cannot be written
+WellFormedPipe(shape, P) ==                                                                           \* tuple[NoAnn, int] cannot be written
+    (shape \in ({"multi2", "multi2x"} \cup RenameShapes) \/ (shape \in SibShapes /\ SibOf(shape).fam = "sib2")) => P.k # "NoAnn"
 
 (* Cases.  To let TLC's workers share the work inside one process, the cases are the SUCCESSORS of one  *)
 (* "row" state per first/producer annotation: pairs row i -> all [i, j]; pipes row p -> all pipelines  *)
@@ -176,11 +241,20 @@ PairCases(i) == {[i |-> i, j |-> j] : j \in 1..N}
 PipeRows == {[shape |-> "row", p |-> Idx(P), c |-> 0, validate |-> FALSE] : P \in {X \in PSet : Mine(Idx(X))}}
 PipeCases(p) == {[shape |-> s, p |-> p, c |-> Idx(C), validate |-> v] :
                     s \in {x \in Shapes \cup NamedShapes : WellFormedPipe(x, USeq[p])}, C \in PSet, v \in BOOLEAN}
+                \cup (IF USeq[p] \notin PSib THEN {}
+                      ELSE {[shape |-> s, p |-> p, c |-> Idx(C), validate |-> v] :
+                               s \in {x \in SibShapes : WellFormedPipe(x, USeq[p])}, C \in PSib, v \in BOOLEAN})
 
 ---------------------------------------------------------------------------
 PairOut(c) == LET A == USeq[c.i]  B == USeq[c.j]
               IN [a |-> A, b |-> B, v |-> Verdict(A, B), why |-> Why(A, B)]
-PipeOut(c) == IF c.shape \in NamedShapes
+PipeOut(c) == IF c.shape \in SibShapes
+              THEN LET d  == SibDesc(SibOf(c.shape), USeq[c.p], USeq[c.c])
+                       es == SetToSeq(NetEdges(d.prods, d.cons))
+                   IN [edges |-> es, expect |-> ConstructNet(d.prods, d.cons, c.validate),
+                       ev |-> [i \in DOMAIN es |-> EdgeVerdict(es[i].p, es[i].c, es[i].via)],
+                       prods |-> d.prods, cons |-> d.cons]
+              ELSE IF c.shape \in NamedShapes
               THEN LET d  == NamedDesc(c.shape, USeq[c.p], USeq[c.c])
                        es == SetToSeq(NamedEdges(d.prod, d.cons))
                    IN [edges |-> es, expect |-> ConstructNamed(d.prod, d.cons, c.validate),
@@ -248,12 +322,33 @@ InvNamed         == (IsPipe /\ case.shape \in NamedShapes) =>
                         /\ (case.shape = "reduce_other2") => out.expect = Construct(Edges("reduce2", P, C), case.validate)
                         /\ (case.shape = "direct_other2") => out.expect = Construct(Edges("direct2", P, C), case.validate)
 
+(* sibling shapes: one edge per input that some function produces, each taken the way ITS OWN entry says; the    *)
+(* sibling being compatible, the outcome is that of the edge under test alone (= the 2-function shape emap2 /  *)
+(* reduce2 / preduce2 of its mode); locality laws of TypeCompat section 7                                      *)
+InvSib           == (IsPipe /\ case.shape \in SibShapes) =>
+                        LET r  == SibOf(case.shape)  P == USeq[case.p]  C == USeq[case.c]
+                            nm == SibInputs(r.fam)
+                            on == IF r.on = 1 THEN r.m1 ELSE r.m2
+                            es == NetEdges(out.prods, out.cons)
+                        IN
+                        /\ out.expect = Construct(out.edges, case.validate)
+                        /\ {<<e.n, e.via>> : e \in es} = {<<nm[1], ModeVia(r.m1)>>}
+                                                          \cup (IF r.fam = "sibr" THEN {} ELSE {<<nm[2], ModeVia(r.m2)>>})
+                        /\ out.expect = Construct(<<E(P, C, ModeVia(on))>>, case.validate)
+                        /\ LawEdgewise(out.prods, out.cons)
+                        /\ \A k \in DOMAIN out.prods : \A name \in ArrNames(out.prods[k].ms.outs) :
+                               LawViaLocal(out.prods[k].ms, out.cons.ms, name)
+
 (* export *)
 VCode(v) == CASE v = "no" -> 0 [] v = "yes" -> 1 [] v = "either" -> 2
 WCode(w) == (IF "tv" \in w THEN 1 ELSE 0) + (IF "bare" \in w THEN 2 ELSE 0) + (IF "num" \in w THEN 4 ELSE 0)
 Emit == IF IsPair THEN PrintT(<<"PAIR", case.i, case.j, VCode(out.v), WCode(out.why)>>)
         ELSE IF IsPipe
-        THEN IF case.shape \in NamedShapes
+        THEN IF case.shape \in SibShapes
+             THEN PrintT(<<"PIPE", ToJson([shape |-> case.shape, p |-> case.p, c |-> case.c, validate |-> case.validate,
+                                           edges |-> out.edges, ev |-> out.ev, expect |-> out.expect,
+                                           prods |-> out.prods, cons |-> out.cons])>>)
+             ELSE IF case.shape \in NamedShapes
              THEN PrintT(<<"PIPE", ToJson([shape |-> case.shape, p |-> case.p, c |-> case.c, validate |-> case.validate,
                                            edges |-> out.edges, ev |-> out.ev, expect |-> out.expect,
                                            prod |-> out.prod, cons |-> out.cons])>>)
